@@ -83,11 +83,15 @@ def build(variant, quiet=True):
     lib = os.path.join(d, 'libslu.a')
     inc = ['-I' + os.path.join(REPO, 'SRC')]
     if os.path.exists(lib):
+        try: os.utime(d, None)
+        except OSError: pass
         return lib, inc, flags, th
     # drop stale builds of the same variant (keep the 3 most recent: parallel users may still link against them)
     olds = sorted((o for o in glob.glob(os.path.join(BUILD, 'lib', variant + '-*')) if '.tmp' not in o), key=os.path.getmtime)
-    for old in olds[:-3]:
-        shutil.rmtree(old, ignore_errors=True)
+    import time as _t
+    for old in olds[:-6]:
+        if _t.time() - os.path.getmtime(old) > 6 * 3600:
+            shutil.rmtree(old, ignore_errors=True)
     tmp = d + '.tmp%d' % os.getpid()
     os.makedirs(tmp, exist_ok=True)
     src, cbl = sources()
